@@ -421,6 +421,45 @@ theorem dominatesB_iff (V : List Nat) (es : List (Nat × Nat)) (hV : ∀ e ∈ e
         have hav := hw.avoided (fun e => hae e.symm)
         exact hav (hall vs (hw.mono (fun e he => ((mem_without a es e).1 he).1)))
 
+/-! ### tie to the operation-layer specification of C06 -/
+
+/-- The dataflow signature the validator uses is one the C06 specification (`Spec.HasSig` of `Ops.lean`,
+    transcribed separately from the same Rust sources) assigns to the operation — rows; the requirement
+    set is free.  (`ExtOp` without cached signature does not occur in decoded documents.) -/
+theorem vsig_hasSig (op : Op) (s : Sig) (hne : ∀ d a, op ≠ .extOp d none a) (h : vsig op = some s) :
+    ∃ r, Spec.HasSig op ⟨s.inp, s.out, r⟩ := by
+  cases op <;> simp only [vsig] at h
+  case input ts => cases h; exact ⟨[], .input ts []⟩
+  case output ts => cases ts <;> simp at h; cases h; exact ⟨[], .output _ []⟩
+  case custom n sg d e a => cases h; exact ⟨s.reqs, .custom n s d e a⟩
+  case extOp d sg a =>
+    cases sg with
+    | some s' => simp at h; cases h; exact ⟨s.reqs, .extOpCached d s a⟩
+    | none => exact absurd rfl (hne d a)
+  case makeTuple ts => cases ts <;> simp at h; cases h; exact ⟨_, .makeTuple _⟩
+  case unpackTuple ts => cases ts <;> simp at h; cases h; exact ⟨_, .unpackTuple _⟩
+  case noop t => cases t <;> simp at h; cases h; exact ⟨_, .noop _⟩
+  case tag tg st =>
+    split at h
+    · rename_i h0
+      cases hr : st.rows[tg.toNat]? with
+      | none => simp [hr] at h
+      | some row =>
+        simp [hr] at h; cases h
+        have : tg = ((tg.toNat : Nat) : Int) := (Int.toNat_of_nonneg h0).symm
+        rw [this]
+        exact ⟨[], .tag tg.toNat st row [] hr⟩
+    · cases h
+  case dfg i o d => cases o <;> simp at h; cases h; exact ⟨d, .dfg _ _ _ _⟩
+  case cfg i o => cases o <;> simp at h; cases h; exact ⟨[], .cfg _ _ _⟩
+  case loadConst t => cases t <;> simp at h; cases h; exact ⟨[], .loadConst _ _⟩
+  case conditional st oi o => cases o <;> simp at h; cases h; exact ⟨[], .conditional _ _ _ _⟩
+  case tailLoop ji rest jo d => cases jo <;> simp at h; cases h; exact ⟨[], .tailLoop _ _ _ _ _⟩
+  case callIndirect sg => cases sg <;> simp at h; cases h; exact ⟨[], .callIndirect _ _⟩
+  case call p inst a => cases h; exact ⟨[], .call _ _ _ _⟩
+  case loadFunc p inst a => cases h; exact ⟨[], .loadFunc _ _ _ _⟩
+  all_goals cases h
+
 /-! ### the executable validator decides `Valid` -/
 
 theorem failing_nil {α : Type} (rule : String) (loc : α → List Nat) (items : List α) (ok : α → Bool) :
